@@ -262,7 +262,7 @@ theorem costF_step (reg : Bool) (N : Nat) (hF : CostF reg N) (hFld : CostFld reg
   | ptr e =>
     have he : goodT (snU sn T) e = true := by simpa [goodT] using hgu.1
     rcases wt_ptr_inv hU hw with rfl | ⟨x, rfl, hx⟩
-    · rw [foldF_ptr_nil] at hspec; cases hspec
+    · rw [foldF_ptr_nil _ _ _ (customOf_good reg he)] at hspec; cases hspec
       exact ⟨by simp [rcost, vcost], fun segs h => by cases h⟩
     · rw [foldF_ptr] at hspec
       rw [vdepth_ptr] at hd
